@@ -414,6 +414,24 @@ pub fn exec_step(s: &mut Sim, rng: &mut StdRng, st: &Value) -> bool {
             }
             None => false,
         },
+        "frag" => match packet_from_json(s, &st["pk"]) {
+            // one server packet in two reads with `spur` polls of the context in between that no wake-up asked for (the first
+            // poll after the first fragment is the woken one): the fragment waits in the framer however often it is polled
+            Some(pk) => {
+                let b = mqtt::encode(&pk, st["form"].as_u64().unwrap_or(9) as u8);
+                let at = (st["at"].as_u64().unwrap_or(1) as usize).clamp(1, b.len().saturating_sub(1).max(1));
+                let abs = mqtt::decode(&b).map(|d| d.abs()).unwrap_or(crate::sim::empty_abs());
+                s.inject_bytes(&b[..at], &[], vec![]);
+                for _ in 0..(1 + st["spur"].as_u64().unwrap_or(0)) {
+                    if s.ctx_alive() {
+                        s.poll_ctx();
+                    }
+                }
+                s.inject_bytes(&b[at..], &[], vec![abs]);
+                true
+            }
+            None => false,
+        },
         "pkts" => {
             // several server packets as one byte stream, cut at the given offsets (any alignment against packet boundaries)
             let mut all: Vec<u8> = vec![];
@@ -599,10 +617,10 @@ pub fn run_script(steps: &[Value], seed: u64) -> Vec<String> {
 // ---------------------------------------------------------------------------------------------
 // random walks
 
-const PUB_REASONS: [u8; 9] = [0x00, 0x10, 0x80, 0x83, 0x87, 0x90, 0x91, 0x97, 0x99];
+pub const PUB_REASONS: [u8; 9] = [0x00, 0x10, 0x80, 0x83, 0x87, 0x90, 0x91, 0x97, 0x99];
 const PUBCOMP_REASONS: [u8; 2] = [0x00, 0x92];
-const SUBACK_REASONS: [u8; 12] = [0, 1, 2, 0x80, 0x83, 0x87, 0x8f, 0x91, 0x97, 0x9e, 0xa1, 0xa2];
-const UNSUBACK_REASONS: [u8; 7] = [0, 0x11, 0x80, 0x83, 0x87, 0x8f, 0x91];
+pub const SUBACK_REASONS: [u8; 12] = [0, 1, 2, 0x80, 0x83, 0x87, 0x8f, 0x91, 0x97, 0x9e, 0xa1, 0xa2];
+pub const UNSUBACK_REASONS: [u8; 7] = [0, 0x11, 0x80, 0x83, 0x87, 0x8f, 0x91];
 pub const DISCONNECT_REASONS: [u8; 29] = [
     0x00, 0x04, 0x80, 0x81, 0x82, 0x83, 0x87, 0x89, 0x8b, 0x8d, 0x8e, 0x8f, 0x90, 0x93, 0x94, 0x95, 0x96, 0x97, 0x98,
     0x99, 0x9a, 0x9b, 0x9c, 0x9d, 0x9e, 0x9f, 0xa0, 0xa1, 0xa2,
@@ -1007,6 +1025,13 @@ pub fn walk(p: &Params, cfg: &WalkCfg, seed: u64) -> (Vec<Value>, Vec<String>) {
                     }
                     if rng.gen_range(0..5) == 0 {
                         props.push(json!([0x03, "ct"]));
+                    }
+                    // Payload Format Indicator, forwarded by the server as the publisher set it: the payloads here are binary
+                    // whatever it says, and the client delivers (and acknowledges) them all the same
+                    match rng.gen_range(0..8) {
+                        0 => props.push(json!([0x01, 1])),
+                        1 => props.push(json!([0x01, 0])),
+                        _ => {}
                     }
                     // properties long enough for a two-byte (rarely three-byte) Property Length
                     match rng.gen_range(0..40) {
